@@ -1,7 +1,7 @@
 (* Single entry point of all executable models:
    run_model id params rows  — ids are the property numbers / sub-models. *)
 Require Import Verif.common.Prelude.
-Require Import Verif.model.Vec Verif.model.Arc Verif.model.IntResult Verif.model.CStr Verif.model.Callback Verif.model.Slice Verif.model.Waker.
+Require Import Verif.model.Vec Verif.model.Arc Verif.model.IntResult Verif.model.CStr Verif.model.Callback Verif.model.Slice Verif.model.Waker Verif.model.CView.
 
 Definition run_model (m : Z) (params : list Z) (rows : list (list Z)) : list (list Z) :=
   match m with
@@ -11,6 +11,7 @@ Definition run_model (m : Z) (params : list Z) (rows : list (list Z)) : list (li
   | 13%Z => run_intres params rows
   | 14%Z => run_cstr params rows
   | 15%Z => run_cb params rows
+  | 16%Z => run_c16 params rows
   | 19%Z => run_waker params rows
   | _ => [[-3]%Z]
   end.
